@@ -49,6 +49,13 @@ Proof.
   - rewrite H6. lia.
 Qed.
 
+Lemma shape_store_step s i : shape s -> shape (store_step s i).
+Proof.
+  intros H. unfold store_step. destruct (inflight s) eqn:E; [|exact H].
+  destruct (flushing s) as [[g fb]|] eqn:Ef; [|exact H]. destruct (nth_error fb (N.to_nat i)) as [[k v]|]; [|exact H].
+  destruct H as [? ? ? ? ? ? ?]; constructor; cbn; assumption.
+Qed.
+
 Lemma shape_flush P s force memsz wo : shape s -> shape (fst (flush P s force memsz wo)).
 Proof.
   intros H. unfold flush.
@@ -90,6 +97,7 @@ Proof.
     apply shape_set_cache, shape_set_stages; [exact H|]. cbn in Hl; congruence.
   - exact H.
   - exact H.
+  - cbn [fst]. apply shape_store_step; exact H.
 Qed.
 
 Lemma shape_run_from P s ops : shape s -> shape (run_from P s ops).
@@ -132,6 +140,8 @@ Proof.
   - destruct (stages s), (segstages s); exact H.
   - exact H.
   - exact H.
+  - cbn [fst]. unfold store_step. destruct (inflight s); [|exact H]. destruct (flushing s) as [[g fb]|]; [|exact H].
+    destruct (nth_error fb (N.to_nat i)) as [[k v]|]; exact H.
 Qed.
 
 Lemma closed_run_from P s ops : closed s = true -> closed (run_from P s ops) = true.
